@@ -156,6 +156,96 @@ theorem physical_chunk (msg : Bytes) (b : UInt8) : ∀ (ls : List Label) (pos fu
     simp only [h0, hne, if_false, encLabel_len_toNat hl.2, hl.2, if_true]
     exact hr
 
+/-- what the physical walk finds where literal labels are followed by a root label or a pointer:
+    the starts of those labels (and of the root label), and the pointer -/
+theorem physical_inv (msg : Bytes) (b : UInt8) : ∀ (ls : List Label) (pos fuel : Nat) (acc : List Nat)
+    (r : List Nat × Option (Nat × Nat)),
+    LabelsWF ls → BytesAt msg pos (ls.flatMap WName.encLabel ++ [b]) → (b = 0 ∨ isPtr b = true) →
+    Message.physical msg fuel pos acc = some r →
+    r.1 = acc.reverse ++ chunkLabs pos ls b ∧ (b = 0 → r.2 = none) ∧
+      (isPtr b = true → ∃ b2, msg[pos + encLen ls + 1]? = some b2 ∧ r.2 = some (pos + encLen ls, ptrOf b b2)) := by
+  intro ls
+  induction ls with
+  | nil =>
+    intro pos fuel acc r _ hb hc h
+    obtain ⟨f, rfl⟩ : ∃ f, fuel = f + 1 := by
+      cases fuel with
+      | zero => simp [Message.physical] at h
+      | succ f => exact ⟨f, rfl⟩
+    have h0 : msg[pos]? = some b := by simpa using hb 0 (by simp)
+    rcases hc with rfl | hp
+    · simp only [Message.physical, h0, if_true] at h
+      cases h
+      refine ⟨by simp [chunkLabs, labelStartsFrom], fun _ => rfl, fun hx => absurd hx (by decide)⟩
+    · have hsp : specIsPtr b := (isPtr_iff b).mp hp
+      have hsp' := hsp
+      unfold specIsPtr at hsp'
+      have hne : b ≠ 0 := by
+        intro hc; subst hc
+        have : (0 : UInt8).toNat = 0 := rfl
+        omega
+      unfold Message.physical at h
+      simp only [h0, hne, if_false] at h
+      rw [if_neg (by omega), if_pos hsp'] at h
+      cases h2 : msg[pos + 1]? with
+      | none => rw [h2] at h; cases h
+      | some b2 =>
+        rw [h2] at h
+        cases h
+        refine ⟨by simp [chunkLabs, labelStartsFrom, hne], fun hx => absurd hx hne, fun _ => ⟨b2, by simpa using h2, ?_⟩⟩
+        simp only [encLen_nil, Nat.add_zero]
+        rw [ptrOf_eq b b2 hsp]; rfl
+  | cons l ls ih =>
+    intro pos fuel acc r hok hb hc h
+    obtain ⟨f, rfl⟩ : ∃ f, fuel = f + 1 := by
+      cases fuel with
+      | zero => simp [Message.physical] at h
+      | succ f => exact ⟨f, rfl⟩
+    have hl := hok l List.mem_cons_self
+    have hb' : BytesAt msg pos (WName.encLabel l ++ (ls.flatMap WName.encLabel ++ [b])) := by
+      simpa [List.flatMap_cons, List.append_assoc] using hb
+    obtain ⟨b1, b2⟩ := bytesAt_append hb'
+    have h0 : msg[pos]? = some (UInt8.ofNat l.length) := by
+      have := b1 0 (by simp [WName.encLabel])
+      simpa [WName.encLabel] using this
+    have hlen : (WName.encLabel l).length = l.length + 1 := by simp [WName.encLabel]
+    rw [hlen] at b2
+    have hne : UInt8.ofNat l.length ≠ 0 := label_len_ne_zero hl
+    unfold Message.physical at h
+    simp only [h0, hne, if_false, encLabel_len_toNat hl.2, hl.2, if_true] at h
+    obtain ⟨e1, e2, e3⟩ := ih (pos + l.length + 1) f (pos :: acc) r (fun x hx => hok x (List.mem_cons_of_mem _ hx))
+      (by rw [show pos + l.length + 1 = pos + (l.length + 1) by omega]; exact b2) hc h
+    refine ⟨?_, e2, fun hp => ?_⟩
+    · rw [e1]
+      simp only [chunkLabs, labelStartsFrom, List.reverse_cons, List.append_assoc, List.cons_append,
+        List.nil_append, encLen_cons]
+      rw [show pos + l.length + 1 + encLen ls = pos + (1 + l.length + encLen ls) by omega]
+    · obtain ⟨b2', x1, x2⟩ := e3 hp
+      refine ⟨b2', ?_, ?_⟩
+      · rw [encLen_cons, show pos + (1 + l.length + encLen ls) + 1 = pos + l.length + 1 + encLen ls + 1 by omega]
+        exact x1
+      · rw [x2, encLen_cons, show pos + l.length + 1 + encLen ls = pos + (1 + l.length + encLen ls) by omega]
+
+/-- a decoded name occurrence is the name at the position `pr.1`, of the item with index `pr.2`,
+    described as the physical walk finds it; inside RDATA that must not be compressed it has no
+    pointer -/
+def Occ (msg : Bytes) (pr : Nat × Nat) (o : Message.NameOcc) : Prop :=
+  o.start = pr.1 ∧ o.item = pr.2 ∧ Message.physical msg 130 pr.1 [] = some (o.labelStarts, o.ptr) ∧
+  (o.place = .rdataUncompressible → o.ptr = none)
+
+theorem decodeNameAt_occ {msg : Bytes} {a : Nat} {place : Message.Where} {item : Nat} {w : List UInt8} {k : Nat}
+    {occ : Message.NameOcc} (h : Message.decodeNameAt msg a place item = some (w, k, occ)) :
+    occ.start = a ∧ occ.item = item ∧ occ.place = place ∧
+      Message.physical msg 130 a [] = some (occ.labelStarts, occ.ptr) := by
+  unfold Message.decodeNameAt at h
+  split at h
+  · rename_i w' x k' ls p h1 h2
+    simp only [Option.some.injEq, Prod.mk.injEq] at h
+    obtain ⟨_, _, h3⟩ := h
+    subst h3
+    exact ⟨rfl, rfl, rfl, h2⟩
+  · cases h
+
 /-- **an item holding a name is read by the specification's decoder** as a name that equals the
     name given up to ASCII case (octet for octet outside `Standard` mode), occupying the `k`
     octets of the item -/
@@ -216,25 +306,28 @@ theorem all2_snoc {α β : Type} {R : α → β → Prop} {as : List α} {bs : L
     specification's decoder, expanding along the RFC layout, reads the fields of the RDATA given -/
 theorem decodeFields_rdAt (s : State) (hw : WInv s) (item : Nat) (m : CMode) (stop : Nat)
     (hstop : stop ≤ s.cursor) :
-    ∀ (lay : List Message.Lay) (rd : List UInt8) (pos : Nat) (fs : List Message.Field) (ns : List Message.NameOcc),
-    RdAt s m (lay.map layToComp) rd pos stop →
-    ∃ gf df ns', Message.givenFields lay rd = some gf ∧
-      Message.decodeFields (s.octets.extract 0 s.cursor) item stop lay pos fs ns = some (fs.reverse ++ df, ns') ∧
-      All2 (FieldMatch (m ≠ .standard)) gf df := by
+    ∀ (lay : List Message.Lay) (rd : List UInt8) (pos : Nat) (fs : List Message.Field) (ns : List Message.NameOcc)
+      (ps : List Nat),
+    RdAt s m (lay.map layToComp) rd pos stop ps →
+    ∃ gf df nl, Message.givenFields lay rd = some gf ∧
+      Message.decodeFields (s.octets.extract 0 s.cursor) item stop lay pos fs ns = some (fs.reverse ++ df, ns.reverse ++ nl) ∧
+      All2 (FieldMatch (m ≠ .standard)) gf df ∧
+      All2 (Occ (s.octets.extract 0 s.cursor)) (ps.map (·, item)) nl := by
   have hcs : s.cursor ≤ s.octets.size := Nat.le_trans hw.cur_av hw.av_size
   intro lay
   induction lay with
   | nil =>
-    intro rd pos fs ns h
+    intro rd pos fs ns ps h
     simp only [List.map_nil, RdAt] at h
-    obtain ⟨hb, he⟩ := h
-    refine ⟨[.bytes rd], [.bytes rd], ns.reverse, rfl, ?_, .cons (.bytes rd) .nil⟩
+    obtain ⟨hb, he, hps⟩ := h
+    subst hps
+    refine ⟨[.bytes rd], [.bytes rd], [], rfl, ?_, .cons (.bytes rd) .nil, .nil⟩
     have hbm := bytesAt_extract_prefix hcs hb (by omega)
     unfold Message.decodeFields
     rw [if_pos (by omega), he, bytesAt_extract hbm]
     simp
   | cons l lay ih =>
-    intro rd pos fs ns h
+    intro rd pos fs ns ps h
     cases l with
     | fixed n =>
       simp only [List.map_cons, layToComp, RdAt] at h
@@ -244,8 +337,8 @@ theorem decodeFields_rdAt (s : State) (hw : WInv s) (item : Nat) (m : CMode) (st
       have hbm := bytesAt_extract_prefix hcs hb (by rw [htl]; omega)
       have hex : ((s.octets.extract 0 s.cursor).extract pos (pos + n)).toList = rd.take n := by
         have := bytesAt_extract hbm; rw [htl] at this; exact this
-      obtain ⟨gf, df, ns', hg, hd, hm⟩ := ih (rd.drop n) (pos + n) (.bytes (rd.take n) :: fs) ns hrest
-      refine ⟨.bytes (rd.take n) :: gf, .bytes (rd.take n) :: df, ns', ?_, ?_, .cons (.bytes _) hm⟩
+      obtain ⟨gf, df, nl, hg, hd, hm, hocc⟩ := ih (rd.drop n) (pos + n) (.bytes (rd.take n) :: fs) ns ps hrest
+      refine ⟨.bytes (rd.take n) :: gf, .bytes (rd.take n) :: df, nl, ?_, ?_, .cons (.bytes _) hm, hocc⟩
       · unfold Message.givenFields
         rw [if_neg (by omega), hg]; rfl
       · unfold Message.decodeFields
@@ -253,14 +346,17 @@ theorem decodeFields_rdAt (s : State) (hw : WInv s) (item : Nat) (m : CMode) (st
         simp
     | cname =>
       simp only [List.map_cons, layToComp, RdAt] at h
-      obtain ⟨n, rest, k, hp, hit, hnm, hrest⟩ := h
+      obtain ⟨n, rest, k, hp, hit, hnm, ps', hps, hrest⟩ := h
+      subst hps
       have hle := rdAt_le hrest
       have hc := parse_content hp
       have hwf := parse_wf hp
       subst hc
       obtain ⟨w, occ, hocc, hcase, hex⟩ := decodeNameAt_item hw hit hnm .rdataCompressible item
-      obtain ⟨gf, df, ns', hg, hd, hm⟩ := ih rest (pos + k) (.name w :: fs) (occ :: ns) hrest
-      refine ⟨.name n.wire :: gf, .name w :: df, ns', ?_, ?_, .cons (.name hcase.symm (fun h => (hex h).symm)) hm⟩
+      obtain ⟨o1, o2, o3, o4⟩ := decodeNameAt_occ hocc
+      obtain ⟨gf, df, nl, hg, hd, hm, hoccs⟩ := ih rest (pos + k) (.name w :: fs) (occ :: ns) ps' hrest
+      refine ⟨.name n.wire :: gf, .name w :: df, occ :: nl, ?_, ?_, .cons (.name hcase.symm (fun h => (hex h).symm)) hm,
+        .cons ⟨o1, o2, o4, fun hx => by rw [o3] at hx; cases hx⟩ hoccs⟩
       · unfold Message.givenFields
         rw [takeName_wire n hwf rest]
         simp only [hg]; rfl
@@ -270,15 +366,21 @@ theorem decodeFields_rdAt (s : State) (hw : WInv s) (item : Nat) (m : CMode) (st
         simp
     | uname =>
       simp only [List.map_cons, layToComp, RdAt] at h
-      obtain ⟨n, rest, hp, hb, hrest⟩ := h
+      obtain ⟨n, rest, hp, hb, ps', hps, hrest⟩ := h
+      subst hps
       have hle := rdAt_le hrest
       have hc := parse_content hp
       have hwf := parse_wf hp
       subst hc
       have hbm := bytesAt_extract_prefix hcs hb (by omega)
       obtain ⟨occ, hocc⟩ := decodeNameAt_wire (s.octets.extract 0 s.cursor) n hwf pos .rdataUncompressible item hbm
-      obtain ⟨gf, df, ns', hg, hd, hm⟩ := ih rest (pos + n.wire.length) (.name n.wire :: fs) (occ :: ns) hrest
-      refine ⟨.name n.wire :: gf, .name n.wire :: df, ns', ?_, ?_, .cons (.name rfl (fun _ => rfl)) hm⟩
+      obtain ⟨o1, o2, o3, o4⟩ := decodeNameAt_occ hocc
+      have hnone : occ.ptr = none :=
+        (physical_inv _ 0 n.labels pos 130 [] _ (fun l hl => hwf.1 l hl) (by simpa [WName.wire] using hbm)
+          (Or.inl rfl) o4).2.1 rfl
+      obtain ⟨gf, df, nl, hg, hd, hm, hoccs⟩ := ih rest (pos + n.wire.length) (.name n.wire :: fs) (occ :: ns) ps' hrest
+      refine ⟨.name n.wire :: gf, .name n.wire :: df, occ :: nl, ?_, ?_, .cons (.name rfl (fun _ => rfl)) hm,
+        .cons ⟨o1, o2, o4, fun _ => hnone⟩ hoccs⟩
       · unfold Message.givenFields
         rw [takeName_wire n hwf rest]
         simp only [hg]; rfl
@@ -317,15 +419,18 @@ theorem fieldMatch_norm {ex : Prop} : ∀ {a b : List Message.Field}, All2 (Fiel
 theorem decodeRdata_rdAt (s : State) (hw : WInv s) (item : Nat) (m : CMode) (ty cls ty' cls' : Nat)
     (rd : List UInt8) (p len : Nat) (ts : List CompType) (hct : componentTypes cls ty = some ts)
     (hlay : Message.layoutOf ty' cls' = Message.layoutOf ty cls)
-    (h : RdAt s m ts rd p (p + len)) (hstop : p + len ≤ s.cursor) :
+    {ps : List Nat} (h : RdAt s m ts rd p (p + len) ps) (hstop : p + len ≤ s.cursor) :
     ∃ gf df ns, Message.givenRdata ty cls rd = some gf ∧
       Message.decodeRdata (s.octets.extract 0 s.cursor) item ty' cls' p len = some (df, ns) ∧
-      All2 (FieldMatch (m ≠ .standard)) gf df := by
+      All2 (FieldMatch (m ≠ .standard)) gf df ∧
+      All2 (Occ (s.octets.extract 0 s.cursor)) (ps.map (·, item)) ns := by
   rw [componentTypes_layout] at hct
   simp only [Option.some.injEq] at hct
   subst hct
-  obtain ⟨gf, df, ns', hg, hd, hm⟩ := decodeFields_rdAt s hw item m (p + len) hstop (Message.layoutOf ty cls) rd p [] [] h
-  refine ⟨Message.normFields gf, Message.normFields df, ns', by simp [Message.givenRdata, hg], ?_, fieldMatch_norm hm⟩
+  obtain ⟨gf, df, ns', hg, hd, hm, hocc⟩ :=
+    decodeFields_rdAt s hw item m (p + len) hstop (Message.layoutOf ty cls) rd p [] [] ps h
+  refine ⟨Message.normFields gf, Message.normFields df, ns', by simp [Message.givenRdata, hg], ?_, fieldMatch_norm hm,
+    hocc⟩
   unfold Message.decodeRdata
   simp only [hlay, hd, List.reverse_nil, List.nil_append]
 
@@ -347,13 +452,13 @@ theorem addRr_rdata_round_trip (hint : Hint) (owner : WName) (ty cls ttl : Nat) 
   obtain ⟨_, hok⟩ := sp_addRr (track := s.hv = some []) (s0 := s) (names := []) hint owner ty cls ttl rd hwf s
     ⟨[], _, none, recSt_init hw hl, hh⟩
   obtain ⟨p, hrec⟩ := hok () s' h
-  obtain ⟨it, hch, hr, hm⟩ := addRr_itemC hint owner ty cls ttl rd s s' hw hl hwf hh h hle
+  obtain ⟨it, hch, hr, hm, _⟩ := addRr_itemC hint owner ty cls ttl rd s s' hw hl hwf hh h hle
   obtain ⟨ha, ⟨hit, _, _, hb, ts, hct, hrd⟩, hend⟩ := hch
   simp only [RChainC] at hend
   rw [hr] at hct hrd
   simp only at hct hrd
   rw [hm] at hrd
-  obtain ⟨gf, df, ns, hg, hd, hfm⟩ := decodeRdata_rdAt s' hrec.winv item s.mode ty cls ty cls rd
+  obtain ⟨gf, df, ns, hg, hd, hfm, _⟩ := decodeRdata_rdAt s' hrec.winv item s.mode ty cls ty cls rd
     (it.a + it.k + 10) it.rdlen ts hct rfl hrd (by omega)
   rw [ha] at hit hb hd hend
   obtain ⟨w, n, hdn⟩ := item_decodes hrec.winv hit
@@ -388,13 +493,32 @@ def MQMatch (it : QItC) (dq : Message.Question) : Prop :=
 def LayoutStable (r : RRec) : Prop :=
   Message.layoutOf (r.ty % 65536) (r.cls % 65536) = Message.layoutOf r.ty r.cls
 
+/-- the name positions of the questions, with the index of the question -/
+def qPairs (i : Nat) : List QItC → List (Nat × Nat)
+  | [] => []
+  | it :: r => (it.a, i) :: qPairs (i + 1) r
+
+/-- the name positions of the records (owner, then the names inside the RDATA), with the index of
+    the record -/
+def rPairs (i : Nat) : List RItC → List (Nat × Nat)
+  | [] => []
+  | it :: r => ((it.a :: it.ps).map (·, i)) ++ rPairs (i + 1) r
+
+theorem rPairs_append (i : Nat) (x y : List RItC) : rPairs i (x ++ y) = rPairs i x ++ rPairs (i + x.length) y := by
+  induction x generalizing i with
+  | nil => simp [rPairs]
+  | cons a r ih =>
+    simp only [List.cons_append, rPairs, ih, List.length_cons, List.append_assoc]
+    rw [show i + 1 + r.length = i + (r.length + 1) by omega]
+
 theorem decodeQuestionsM_chainC (s : State) (hw : WInv s) :
     ∀ (qs : List QItC) (p e : Nat), QChainC s qs p e → e ≤ s.cursor →
       ∀ (acc : List Message.Question) (a : Message.Acc),
       ∃ l a', Message.decodeQuestions (s.octets.extract 0 s.cursor) qs.length p acc a =
           some (e, acc.reverse ++ l, a') ∧ All2 MQMatch qs l ∧
           a'.extents = (qs.map fun it => (it.a, it.a + it.k + 4)).reverse ++ a.extents ∧
-          a'.item = a.item + qs.length := by
+          a'.item = a.item + qs.length ∧
+          ∃ nl, a'.names = nl.reverse ++ a.names ∧ All2 (Occ (s.octets.extract 0 s.cursor)) (qPairs a.item qs) nl := by
   have hcs : s.cursor ≤ s.octets.size := Nat.le_trans hw.cur_av hw.av_size
   have hsz := extract_size s.octets s.cursor hcs
   intro qs
@@ -403,7 +527,7 @@ theorem decodeQuestionsM_chainC (s : State) (hw : WInv s) :
     intro p e h _ acc a
     simp only [QChainC] at h
     subst h
-    exact ⟨[], a, by simp [Message.decodeQuestions], .nil, by simp, rfl⟩
+    exact ⟨[], a, by simp [Message.decodeQuestions], .nil, by simp, rfl, [], rfl, .nil⟩
   | cons x r ih =>
     intro p e h he acc a
     obtain ⟨h1, ⟨hit, hnm, hby⟩, h3⟩ := h
@@ -417,10 +541,12 @@ theorem decodeQuestionsM_chainC (s : State) (hw : WInv s) :
       be16_of_bytesAt_mod (bytesAt_extract_prefix hcs b1 (by rw [hl2]; omega))
     have e2 : be16 (s.octets.extract 0 s.cursor) (x.a + x.k + 2) = x.q.qclass % 65536 :=
       be16_of_bytesAt_mod (bytesAt_extract_prefix hcs b2 (by rw [hl2]; omega))
-    obtain ⟨l, a', hl, hfa, hext, hitem⟩ := ih _ _ h3 he (⟨w, x.q.qtype % 65536, x.q.qclass % 65536⟩ :: acc)
+    obtain ⟨o1, o2, o3, o4⟩ := decodeNameAt_occ hd
+    obtain ⟨l, a', hl, hfa, hext, hitem, nl, hnl, hocc⟩ := ih _ _ h3 he (⟨w, x.q.qtype % 65536, x.q.qclass % 65536⟩ :: acc)
       { extents := (x.a, x.a + x.k + 4) :: a.extents, names := occ :: a.names, item := a.item + 1 }
     refine ⟨⟨w, x.q.qtype % 65536, x.q.qclass % 65536⟩ :: l, a', ?_, .cons ⟨hcase, hex, rfl, rfl⟩ hfa,
-      by rw [hext]; simp, by rw [hitem]; simp; omega⟩
+      by rw [hext]; simp, by rw [hitem]; simp; omega, occ :: nl, by rw [hnl]; simp,
+      .cons ⟨o1, o2, o4, fun hx => by rw [o3] at hx; cases hx⟩ hocc⟩
     simp only [List.length_cons, Message.decodeQuestions, hd]
     rw [if_pos (by rw [hsz]; omega), e1, e2, hl]
     simp
@@ -431,7 +557,9 @@ theorem decodeRecordsM_chainC (s : State) (hw : WInv s) :
       ∃ l p' a', Message.decodeRecords (s.octets.extract 0 s.cursor) n p acc a = some (p', acc.reverse ++ l, a') ∧
         All2 MRecMatch (rs.take n) l ∧ RChainC s (rs.drop n) p' e ∧
         a'.extents = ((rs.take n).map fun it => (it.a, it.a + it.k + 10 + it.rdlen)).reverse ++ a.extents ∧
-        a'.item = a.item + n := by
+        a'.item = a.item + n ∧
+        ∃ nl, a'.names = nl.reverse ++ a.names ∧
+          All2 (Occ (s.octets.extract 0 s.cursor)) (rPairs a.item (rs.take n)) nl := by
   have hcs : s.cursor ≤ s.octets.size := Nat.le_trans hw.cur_av hw.av_size
   have hsz := extract_size s.octets s.cursor hcs
   intro rs
@@ -440,11 +568,11 @@ theorem decodeRecordsM_chainC (s : State) (hw : WInv s) :
     intro p e h _ _ n hn acc a
     have : n = 0 := by simpa using hn
     subst this
-    exact ⟨[], p, a, by simp [Message.decodeRecords], .nil, h, by simp, rfl⟩
+    exact ⟨[], p, a, by simp [Message.decodeRecords], .nil, h, by simp, rfl, [], rfl, .nil⟩
   | cons x r ih =>
     intro p e h he hst n hn acc a
     cases n with
-    | zero => exact ⟨[], p, a, by simp [Message.decodeRecords], .nil, h, by simp, rfl⟩
+    | zero => exact ⟨[], p, a, by simp [Message.decodeRecords], .nil, h, by simp, rfl, [], rfl, .nil⟩
     | succ n =>
       obtain ⟨h1, ⟨hit, hnm, hby, hb, ts, hct, hrd⟩, h4⟩ := h
       subst h1
@@ -463,15 +591,19 @@ theorem decodeRecordsM_chainC (s : State) (hw : WInv s) :
           (by show _ + 4 ≤ _; omega))
       have e8 : be16 (s.octets.extract 0 s.cursor) (x.a + x.k + 8) = x.rdlen := by
         rw [be16_extract _ _ _ hcs (by omega)]; exact hb
-      obtain ⟨gf, df, ns, hgf, hdf, hfm⟩ := decodeRdata_rdAt s hw a.item x.m x.r.ty x.r.cls (x.r.ty % 65536)
+      obtain ⟨o1, o2, o3, o4⟩ := decodeNameAt_occ hd
+      obtain ⟨gf, df, ns, hgf, hdf, hfm, hoccr⟩ := decodeRdata_rdAt s hw a.item x.m x.r.ty x.r.cls (x.r.ty % 65536)
         (x.r.cls % 65536) x.r.rdata (x.a + x.k + 10) x.rdlen ts hct (hst x List.mem_cons_self) hrd (by omega)
-      obtain ⟨l, p', a', hl, hfa, hch, hext, hitem⟩ := ih _ _ h4 he (fun it hx => hst it (List.mem_cons_of_mem _ hx)) n
+      obtain ⟨l, p', a', hl, hfa, hch, hext, hitem, nl, hnl, hocc⟩ := ih _ _ h4 he (fun it hx => hst it (List.mem_cons_of_mem _ hx)) n
         (by simpa using hn) (⟨w, x.r.ty % 65536, x.r.cls % 65536, x.r.ttl % 4294967296, df⟩ :: acc)
         { extents := (x.a, x.a + x.k + 10 + x.rdlen) :: a.extents,
           names := ns.reverse ++ (occ :: a.names), item := a.item + 1 }
       refine ⟨⟨w, x.r.ty % 65536, x.r.cls % 65536, x.r.ttl % 4294967296, df⟩ :: l, p', a', ?_,
         .cons ⟨hcase, hex, rfl, rfl, rfl, gf, hgf, hfm⟩ (by simpa using hfa), by simpa using hch,
-        by rw [hext]; simp, by rw [hitem]; simp; omega⟩
+        by rw [hext]; simp, by rw [hitem]; simp; omega, (occ :: ns) ++ nl, by rw [hnl]; simp, ?occs⟩
+      case occs =>
+        simp only [List.take_succ_cons, rPairs]
+        exact All2.append (.cons ⟨o1, o2, o4, fun hx => by rw [o3] at hx; cases hx⟩ hoccr) (by simpa using hocc)
       simp only [Message.decodeRecords, hd]
       rw [if_pos (by rw [hsz]; omega)]
       simp only [e1, e2, e3, e8]
@@ -511,6 +643,15 @@ theorem layoutStable_tsig (t : Option Tsig) (mac : Option (List UInt8)) : ∀ r 
     unfold LayoutStable Message.layoutOf
     simp [h250]
 
+/-- what the pointer audit needs to know about the final buffer `sF` of `finish`: the message is
+    its octets below the cursor, the chains lie there, every recorded label start is the first
+    octet of a label of a name of the chains, and the decoder's name occurrences are the names at
+    the name positions of the chains, in order -/
+def FinAudit (s : State) (m : Bytes) (d : Message.Decoded) (qs : List QItC) (rs : List RItC) : Prop :=
+  ∃ sF : State, m = sF.octets.extract 0 sF.cursor ∧ WInv sF ∧ QChainC sF qs 12 s.rrStart ∧
+    RChainC sF rs s.rrStart sF.cursor ∧ Labs sF s.rrStart qs rs ∧
+    All2 (Occ m) (qPairs 0 qs ++ rPairs qs.length rs) d.names
+
 /-- **C12 (d) in every compression mode.** From a valid writer state whose layout holds the questions
     and records `b` (of 16-bit types and classes): whatever `finish` returns (if at most 65535
     octets) is read by the specification's RFC 1035 decoder as a message with the header octets of
@@ -532,7 +673,8 @@ theorem finish_refines (macFn : Tsig → List UInt8 → List UInt8) (s : State) 
       iar.map (·.m) = mb.ar ++ (optRecs' s.edns).map (fun _ => s.mode) ++
         (tsigRecs s.tsig mac).map (fun _ => s.mode) ∧
       d.extents.map (·.2) = qs.map qEnd ++ (ian ++ ins ++ iar).map rEnd ∧
-      ∃ rs0 ex, ian ++ ins ++ iar = rs0 ++ ex ∧ QChainC s qs 12 s.rrStart ∧ RChainC s rs0 s.rrStart s.cursor := by
+      ∃ rs0 ex, ian ++ ins ++ iar = rs0 ++ ex ∧ QChainC s qs 12 s.rrStart ∧ RChainC s rs0 s.rrStart s.cursor ∧
+        FinAudit s m d qs (ian ++ ins ++ iar) := by
   unfold finish at hf
   cases hw : finishWithMac macFn s with
   | mk r sF =>
@@ -550,7 +692,7 @@ theorem finish_refines (macFn : Tsig → List UInt8 → List UInt8) (s : State) 
       have hcF : sF.cursor ≤ sF.octets.size := by omega
       have hmsz : m.size = sF.cursor := by rw [← hm, hlc]; exact extract_size _ _ hcF
       have hle : sF.cursor ≤ 65535 := by omega
-      obtain ⟨wF, _, hhdr, hcnt, qs, rs, hq, hr, hqm, hrm, hqP, hrP, hqM, hrM, rs0, ex, hrs0, hq0, hr0⟩ :=
+      obtain ⟨wF, _, hhdr, hcnt, qs, rs, hq, hr, hqm, hrm, hqP, hrP, hqM, hrM, rs0, ex, hrs0, hq0, hr0, hlabF⟩ :=
         finishWithMac_finLayC macFn s b mb hI hL len mc sF hw hle
       rw [hlc] at hm
       subst hm
@@ -595,7 +737,7 @@ theorem finish_refines (macFn : Tsig → List UInt8 → List UInt8) (s : State) 
             · exact layoutStable_opt _ _ h3
           · exact layoutStable_tsig _ _ _ h2
       -- questions
-      obtain ⟨lq, a1, hdq, hmq, hx1, _⟩ := decodeQuestionsM_chainC sF wF qs 12 s.rrStart hq hrrle [] {}
+      obtain ⟨lq, a1, hdq, hmq, hx1, hi1, nlq, hnq, hoq⟩ := decodeQuestionsM_chainC sF wF qs 12 s.rrStart hq hrrle [] {}
       rw [hql] at hdq
       -- the sections of the given records
       obtain ⟨ha1, ha2⟩ := map_take_eq (·.r) rs (b.an ++ b.ns) (b.ar ++ optRecs' s.edns ++ tsigRecs s.tsig mc)
@@ -611,11 +753,11 @@ theorem finish_refines (macFn : Tsig → List UInt8 → List UInt8) (s : State) 
       have hmanl : mb.an.length = s.ancount := by rw [ml1]; exact hanl
       have hmnsl : mb.ns.length = s.nscount := by rw [ml2]; exact hnsl
       -- the three record sections
-      obtain ⟨la, p2, a2, hda, hma, hch2, hx2, _⟩ := decodeRecordsM_chainC sF wF _ _ _ hr (Nat.le_refl _) hst s.ancount
+      obtain ⟨la, p2, a2, hda, hma, hch2, hx2, hi2, nla, hna, hoa⟩ := decodeRecordsM_chainC sF wF _ _ _ hr (Nat.le_refl _) hst s.ancount
         (by omega) [] a1
-      obtain ⟨ln, p3, a3, hdn, hmn, hch3, hx3, _⟩ := decodeRecordsM_chainC sF wF _ _ _ hch2 (Nat.le_refl _)
+      obtain ⟨ln, p3, a3, hdn, hmn, hch3, hx3, hi3, nln, hnn, hon⟩ := decodeRecordsM_chainC sF wF _ _ _ hch2 (Nat.le_refl _)
         (fun it hx => hst it (List.mem_of_mem_drop hx)) s.nscount (by rw [List.length_drop]; omega) [] a2
-      obtain ⟨lr, p4, a4, hdr, hmr, hch4, hx4, _⟩ := decodeRecordsM_chainC sF wF _ _ _ hch3 (Nat.le_refl _)
+      obtain ⟨lr, p4, a4, hdr, hmr, hch4, hx4, _, nlr, hnr, hor⟩ := decodeRecordsM_chainC sF wF _ _ _ hch3 (Nat.le_refl _)
         (fun it hx => hst it (List.mem_of_mem_drop (List.mem_of_mem_drop hx))) s.arcount
         (by rw [List.length_drop, List.length_drop]; omega) [] a3
       have hnil : (((rs.drop s.ancount).drop s.nscount).drop s.arcount) = [] := by
@@ -626,8 +768,30 @@ theorem finish_refines (macFn : Tsig → List UInt8 → List UInt8) (s : State) 
       have htk : ((rs.drop s.ancount).drop s.nscount).take s.arcount = (rs.drop s.ancount).drop s.nscount := by
         apply List.take_of_length_le
         rw [List.length_drop, List.length_drop]; omega
-      rw [htk] at hmr
+      rw [htk] at hmr hor
       simp only [List.reverse_nil, List.nil_append] at hdq hda hdn hdr
+      -- the name occurrences
+      have hnames : a4.names.reverse = nlq ++ (nla ++ (nln ++ nlr)) := by
+        rw [hnr, hnn, hna, hnq]
+        simp
+      have hlt : (rs.take s.ancount).length = s.ancount := by rw [List.length_take]; omega
+      have hlt2 : ((rs.drop s.ancount).take s.nscount).length = s.nscount := by
+        rw [List.length_take, List.length_drop]; omega
+      have hi1' : a1.item = qs.length := by rw [hi1]; show 0 + qs.length = _; omega
+      have hpairs : rPairs qs.length rs = rPairs qs.length (rs.take s.ancount) ++
+          (rPairs (qs.length + s.ancount) ((rs.drop s.ancount).take s.nscount) ++
+            rPairs (qs.length + s.ancount + s.nscount) ((rs.drop s.ancount).drop s.nscount)) := by
+        have hsplit : rs = rs.take s.ancount ++ ((rs.drop s.ancount).take s.nscount ++
+            (rs.drop s.ancount).drop s.nscount) := by rw [List.take_append_drop, List.take_append_drop]
+        conv => lhs; rw [hsplit]
+        rw [rPairs_append, rPairs_append, hlt, hlt2]
+      have hoccs : All2 (Occ (sF.octets.extract 0 sF.cursor)) (qPairs 0 qs ++ rPairs qs.length rs)
+          a4.names.reverse := by
+        rw [hnames, hpairs]
+        rw [hi1'] at hoa
+        rw [hi2, hi1'] at hon
+        rw [hi3, hi2, hi1'] at hor
+        exact All2.append hoq (All2.append hoa (All2.append hon hor))
       -- the header octets
       have hg : ∀ i, i < 4 → (sF.octets.extract 0 sF.cursor).getD i 0 = s.octets.getD i 0 := by
         intro i hi
@@ -649,7 +813,10 @@ theorem finish_refines (macFn : Tsig → List UInt8 → List UInt8) (s : State) 
             · exact hrP it (List.mem_of_mem_take hx)
             · exact hrP it (List.mem_of_mem_drop (List.mem_of_mem_take hx))
           · exact hrP it (List.mem_of_mem_drop (List.mem_of_mem_drop hx)), hqM, ?_, ?_, ?_, ?_,
-        rs0, ex, by rw [← hrs0, List.append_assoc, List.take_append_drop, List.take_append_drop], hq0, hr0⟩
+        rs0, ex, by rw [← hrs0, List.append_assoc, List.take_append_drop, List.take_append_drop], hq0, hr0, ?aud⟩
+      case aud =>
+        rw [List.append_assoc, List.take_append_drop, List.take_append_drop]
+        exact ⟨sF, rfl, wF, hq, hr, hlabF, hoccs⟩
       · unfold Message.specDecodeMsg
         rw [if_neg (by rw [hsz']; omega)]
         simp only [e4, e6, e8, e10, hdq, hda, hdn, hdr]
